@@ -354,6 +354,6 @@ def _worker(ctx, job):
 
 def run(ctx):
     quick = ctx.tier == "quick"
-    n = 220 if quick else 25000
+    n = 400 if quick else 25000
     newer = [15, 16] if quick else [15, 16, 31, 255]
     ctx.parallel(_worker, [(v, n) for v in list(range(4, 15)) + newer])
